@@ -1014,3 +1014,14 @@ MUTANTS.append({"id": "C05-caller-manages-only-with-destructor", "prop": "C05", 
 MUTANTS.append({"id": "C05-benign-caller-manages-after-destructor", "prop": "C05", "benign": True, "expect": None,
   "edits": [("src/interrogate/functionRemap.cxx", "    iwrapper._flags |= InterrogateFunctionWrapper::F_caller_manages;\n    FunctionIndex destructor = _return_value_destructor;\n",
              "    FunctionIndex destructor = _return_value_destructor;\n    iwrapper._flags |= InterrogateFunctionWrapper::F_caller_manages;\n")]})
+
+M("C07-enum-reassociation-any-operator", "C07", "src/cppparser/cppEnumType.cxx",
+  "               _last_value->_u._op._operator == '+' &&\n", "",
+  expect="R07.9|add_element|binary@_u._op._op1|reassociation-only-for-plus")
+M("C07-enum-successor-plus-two", "C07", "src/cppparser/cppEnumType.cxx",
+  "      value = new CPPExpression(_last_value->_u._integer + 1);", "      value = new CPPExpression(_last_value->_u._integer + 2);",
+  expect="R07.9|add_element|integer-successor")
+M("C07-benign-enum-reassociation-order", "C07", "src/cppparser/cppEnumType.cxx",
+  "    } else if (_last_value->_type == CPPExpression::T_binary_operation &&\n               _last_value->_u._op._operator == '+' &&\n               _last_value->_u._op._op2->_type == CPPExpression::T_integer) {",
+  "    } else if (_last_value->_type == CPPExpression::T_binary_operation &&\n               _last_value->_u._op._op2->_type == CPPExpression::T_integer &&\n               '+' == _last_value->_u._op._operator) {",
+  benign=True)
